@@ -322,6 +322,11 @@ def x1_hooks(f, dom):
     def nonempty(it):
         return isinstance(it, ast.Name) and it.id in dom.get("nonempty", ())
 
+    # names whose value derives from the domain variable (the enumerated parameter, the opened file): a binding that is
+    # conditional on such a name is conditional on the domain assumption (`getter = next((g for k, g in TABLE if n == k), None)`;
+    # `if getter is not None: w = ...` binds w for every n in the domain)
+    derived = set()
+
     opened = set()
     for n in ast.walk(f):
         if isinstance(n, ast.With):
@@ -329,6 +334,32 @@ def x1_hooks(f, dom):
                 if isinstance(it.optional_vars, ast.Name) and isinstance(it.context_expr, ast.Call) \
                         and src(it.context_expr.func).split(".")[-1] == "open":
                     opened.add(it.optional_vars.id)
+
+    seeds_ = ({enum_name} if enum_name else set()) | (opened if dom.get("file_search") else set())
+    derived |= seeds_
+    changed = bool(seeds_)
+    while changed:
+        changed = False
+        for st in ast.walk(f):
+            tgt, val = None, None
+            if isinstance(st, ast.Assign):
+                tgt, val = st.targets, st.value
+            elif isinstance(st, (ast.AnnAssign, ast.AugAssign, ast.NamedExpr)) and st.value is not None:
+                tgt, val = [st.target], st.value
+            elif isinstance(st, (ast.For, ast.comprehension)):
+                tgt, val = [st.target], st.iter
+            if val is None or not (_names(val) & derived):
+                continue
+            new_names = {x.id for t in tgt for x in ast.walk(t) if isinstance(x, ast.Name)} - derived
+            if new_names:
+                derived.update(new_names)
+                changed = True
+    base_exhaustive = exhaustive
+
+    def exhaustive(chain, base_exhaustive=base_exhaustive):
+        if base_exhaustive(chain):
+            return True
+        return bool(seeds_) and all(_names(t) & (derived - seeds_) for t in chain)
 
     def search_hits(loop):
         # `for line in <opened file>:` whose breaks are all guarded by a test (a search that stops at a hit)
@@ -366,8 +397,17 @@ def r_wellformed(ctx, model):
         for q, f in mod.funcs.items():
             nf += 1
             dom = X1_DOMAIN.get((mname, q))
+            outer_f = f
+            if dom is None:
+                # a helper defined inside a command function shares its option parameters (closure)
+                parts_ = q.split(".")
+                for k_ in range(len(parts_) - 1, 0, -1):
+                    if (mname, ".".join(parts_[:k_])) in X1_DOMAIN:
+                        dom = X1_DOMAIN[(mname, ".".join(parts_[:k_]))]
+                        outer_f = mod.funcs[".".join(parts_[:k_])]
+                        break
             if dom:
-                da = DefiniteAssignment(f, **x1_hooks(f, dom))
+                da = DefiniteAssignment(f, **x1_hooks(outer_f if outer_f is not f and dom.get("one_of") else f, dom))
                 suppressed.append(f"{mname}:{q} - domain assumption: {dom['why']}")
             else:
                 da = DefiniteAssignment(f)
